@@ -506,6 +506,18 @@ def scenario_scaler(rng, props, fails, stats):
     sc_calls = []
     recA = Rec(p)
     kw = base_kwargs(rng, p, recA)
+    reuse = bool(rng.random() < 0.4)
+
+    def wrap_jac(rec):
+        """a gradient callable that writes into and returns the same buffer on every call (legitimate user code)"""
+        buf = np.zeros(p.n)
+        inner = rec.jac
+
+        def jac(x):
+            buf[:] = inner(x)
+            return buf
+        return jac if reuse else inner
+    kw["jac"] = wrap_jac(recA)
 
     def scaler(x, g, lb, ub):
         sc_calls.append((x.copy(), g.copy(), lb.copy(), ub.copy()))
@@ -513,7 +525,7 @@ def scenario_scaler(rng, props, fails, stats):
     kwA = dict(kw, gradient_scaler=scaler)
     resA, excA = run_once(p, kwA, recA)
     recB = Rec(p, scale=s)
-    kwB = dict(kw, fun=recB.fun, jac=recB.jac)
+    kwB = dict(kw, fun=recB.fun, jac=wrap_jac(recB))
     resB, excB = run_once(p, kwB, recB)
     stats["runs"] += 2
     if excA is not None or excB is not None:
@@ -703,6 +715,7 @@ def scenario_update_identity(rng, props, fails, stats):
     j = int(rng.integers(1, 5))
     calls = [0]
     last = {}
+    inplace = bool(rng.random() < 0.5)
 
     def upd(x, f0, f0_old, g, X, G):
         calls[0] += 1
@@ -710,10 +723,16 @@ def scenario_update_identity(rng, props, fails, stats):
             w = float(rng.uniform(0.3, 3.0))
             flip = rng.random() < 0.5
             from collections import deque as dq
-            G2 = dq([(-gi if (flip and i % 2 == 0 and i < len(G) - 1) else gi) * w for i, gi in enumerate(G)])
+            if inplace:
+                # the user rewrites the stored gradient arrays in place and hands the same deque back
+                for i, gi in enumerate(G):
+                    gi *= (-w if (flip and i % 2 == 0 and i < len(G) - 1) else w)
+                G2 = G
+            else:
+                G2 = dq([(-gi if (flip and i % 2 == 0 and i < len(G) - 1) else gi) * w for i, gi in enumerate(G)])
             last["G"] = [np.array(gi, copy=True) for gi in G2]
             last["X"] = [np.array(xi, copy=True) for xi in X]
-            return f0 * w, f0 * w, g * w, G2
+            return f0 * w, f0 * w, (G2[-1] if inplace else g * w), G2
         return f0, f0_old, g, G
     rec3 = Rec(p)
     kw3 = dict(kw, fun=rec3.fun, jac=rec3.jac, update_fun_def=upd, maxiter=j + 1, ftol=1e300, ftarget=None)
@@ -1016,6 +1035,30 @@ def scenario_subspace(rng, props, fails, stats):
     return {"n": n, "m": m, "free": len(free)}
 
 
+def scenario_diag(rng, props, fails, stats):
+    """C18: extract_hess_inv_diag == diagonal of the dense operator, for arbitrary positive-curvature pair sets
+    (including pairs with tiny steps)."""
+    from scipy.optimize import LbfgsInvHessProduct
+    from lbfgsb.utils import extract_hess_inv_diag
+    n, m = int(rng.integers(1, 31)), int(rng.integers(1, 13))
+    A = rng.normal(size=(n, n))
+    H = A @ A.T + np.eye(n)
+    scale = 10 ** rng.uniform(-10, 1)
+    sk = rng.normal(size=(m, n)) * scale
+    if rng.random() < 0.3:
+        sk[:, int(rng.integers(0, n))] *= 1e-9
+    yk = sk @ H
+    op = LbfgsInvHessProduct(sk, yk)
+    stats["runs"] += 1
+    stats["nontrivial"] += 1
+    d = extract_hess_inv_diag(op)
+    ref = np.diag(op.todense())
+    if d.shape != ref.shape or np.max(np.abs(d - ref)) > 1e-9 * max(1.0, float(np.max(np.abs(ref)))):
+        fails.append(("C18", f"extract_hess_inv_diag differs from the diagonal of the dense operator by "
+                             f"{np.max(np.abs(d - ref)):.2e} (n={n}, pairs={m}, step scale {scale:.1e})"))
+    return {"n": n, "pairs": m}
+
+
 def describe(p, kw):
     return {"problem": p.name, "n": p.n, "x0": [float(v) for v in p.x0], "lb": [float(v) for v in p.lb],
             "ub": [float(v) for v in p.ub],
@@ -1039,6 +1082,7 @@ SCENARIOS = {
     "bfgs": (scenario_bfgs, {"C10"}),
     "cauchy": (scenario_cauchy, {"C08"}),
     "subspace": (scenario_subspace, {"C09"}),
+    "diag": (scenario_diag, {"C18"}),
 }
 
 
